@@ -194,8 +194,8 @@ func (matrix *DenseReal64Matrix) SLICE(rfrom, rto, cfrom, cto int) *DenseReal64M
   return &m
 }
 func (matrix *DenseReal64Matrix) AsDenseReal64Vector() DenseReal64Vector {
-  if matrix.cols < matrix.colMax - matrix.colOffset ||
-    (matrix.rows < matrix.rowMax - matrix.rowOffset) {
+  if matrix.transposed || matrix.rowOffset != 0 || matrix.colOffset != 0 ||
+    matrix.rows != matrix.rowMax || matrix.cols != matrix.colMax {
     n, m := matrix.Dims()
     v := nilDenseReal64Vector(n*m)
     for i := 0; i < n; i++ {
